@@ -54,6 +54,7 @@ var errFile *os.File
 var errOff int64
 
 var unshareCgroup bool
+var busyMounts bool
 
 func ensure(scratch string) error {
 	if env != nil {
@@ -66,7 +67,13 @@ func ensure(scratch string) error {
 			return err
 		}
 	}
-	env, err = hx.NewEnvWith(scratch, errFile, func(b *container.Builder) { b.UnshareCgroupBeforeExec = unshareCgroup })
+	env, err = hx.NewEnvWith(scratch, errFile, func(b *container.Builder) {
+		b.UnshareCgroupBeforeExec = unshareCgroup
+		if busyMounts {
+			// a file bound below each of the two tmpfs mounts: Reset cannot empty either of them (EBUSY)
+			b.Mounts = hx.Mounts().WithBind("/bin/true", "w/tool", true).WithBind("/bin/true", "tmp/tool", true).FilterNotExist().Mounts
+		}
+	})
 	container.VerifTakeEvents()
 	st, _ := errFile.Stat()
 	errOff = st.Size()
@@ -144,6 +151,7 @@ func main() {
 						env = nil
 					}
 					unshareCgroup = op["unshare_cgroup"] == true
+					busyMounts = op["busy_mounts"] == true
 					o["err"] = errs(ensure(scratch))
 				case "destroy":
 					if env != nil {
